@@ -482,6 +482,58 @@ func c08Key(r *Run, t *tape.Tape) {
 		}
 		k.Params = params
 	}
+	if len(k.Params) > 0 && t.Bool(1, 8, "c08.key.twospellings") {
+		// one key parameter under two Go integer types (k.Params[-1] written
+		// by one part of the application, k.Params[int8(-1)] by another): two
+		// entries of the Go map, one CBOR label - an encoder that emits both
+		// emits a map with a repeated key, one that picks one of them emits
+		// different keys depending on the order it met them in
+		var ints []int64
+		for p := range k.Params {
+			if v, ok := asInt64(p); ok && v > -120 && v < 120 {
+				ints = append(ints, v)
+			}
+		}
+		sort.Slice(ints, func(a, b int) bool { return ints[a] < ints[b] })
+		if len(ints) > 0 {
+			lbl := ints[t.Choose(len(ints), "c08.key.twospellings.label")]
+			cp := map[any]any{}
+			var val any
+			for p, v := range k.Params {
+				if pv, ok := asInt64(p); ok && pv == lbl {
+					val = v
+					continue
+				}
+				cp[p] = v
+			}
+			types := []func(int64) any{
+				func(v int64) any { return int(v) }, func(v int64) any { return int8(v) }, func(v int64) any { return int16(v) },
+				func(v int64) any { return int32(v) }, func(v int64) any { return int64(v) },
+			}
+			i := t.Choose(len(types), "c08.key.twospellings.a")
+			j := (i + 1 + t.Choose(len(types)-1, "c08.key.twospellings.b")) % len(types)
+			cp[types[i](lbl)] = val
+			other := val
+			if bs, ok := val.([]byte); ok && len(bs) > 0 && t.Bool(1, 2, "c08.key.twospellings.othervalue") {
+				o := append([]byte{}, bs...)
+				o[len(o)-1] ^= 1
+				other = o
+			}
+			cp[types[j](lbl)] = other
+			dup := k
+			dup.Params = cp
+			var b []byte
+			var err error
+			r.Lib(func() { b, err = dup.MarshalCBOR() })
+			r.Fired("key.label-under-two-go-types")
+			r.Check()
+			if err == nil {
+				r.Fail("encoder-emits-repeated-label/Key", "Key.MarshalCBOR returned bytes for a key whose Params hold label %d under two Go integer types (%T and %T): %x", lbl, types[i](lbl), types[j](lbl), b)
+				return
+			}
+			r.Outcome("key-two-spellings-refused")
+		}
+	}
 	r.Op("ENCODE", "key %s %s", ks.Desc, opsClass(ks))
 	r.Outcome(fmt.Sprintf("key/kty=%d/%s", ks.Kty, opsClass(ks)))
 	b := r.c08Encode(t, "Key", func() ([]byte, error) { return k.MarshalCBOR() })
